@@ -136,6 +136,19 @@ SUBS = [
         what="'__jsonclass__' descriptors (side-effect-free classes, invalid/unresolvable names, malformed descriptors) anywhere in a request"),
 ]
 
+from vlib import fuzzdrv  # noqa: E402
+
+SUBS.extend([
+    Sub("atheris", oracle, external=fuzzdrv.campaign("c02", "dispatch"),
+        budget={"quick": 40000, "thorough": 4000000}, shards={"quick": 2, "thorough": 8},
+        time_cap={"quick": 100, "thorough": 1500},
+        what="coverage-guided fuzzing (atheris) of request bodies with the reference-model oracle; seeded and empty corpus"),
+    Sub("atheris-descriptors", oracle_wellformed_only, external=fuzzdrv.campaign("c02desc", "c15"),
+        budget={"quick": 0, "thorough": 1500000}, shards={"quick": 1, "thorough": 4},
+        time_cap={"quick": 100, "thorough": 1500},
+        what="coverage-guided fuzzing of bodies with class translation on (well-formedness oracle)"),
+])
+
 CLAIM = {
     "technique": "property-based testing and grammar/mutation fuzzing of the dispatcher against a reference model and a strict well-formedness predicate; exhaustive single-character damage",
     "text": "Generated-input search: request grammar, exhaustive and random damage of valid texts, arbitrary text, nesting sweeps and class descriptors are fed to the real _marshaled_dispatch; the check fails when it raises or when the output is not ''/one well-formed response object/a non-empty array of them.",
